@@ -1,14 +1,354 @@
-import Pxv.Model.Errors
+import Pxv.Lemmas.Errors
 /-!
 C06 — errors reach the right handler, every observer, and stop the pipeline.
+
+Model: `Pxv/Model/Errors.lean`. The theorems of part (2) are about `exec`, the model of the code pavexc
+generates from one ordered call graph; they hold for **every** graph, every set of failing components and
+whatever basic blocks the visitor picks, because they only rest on the binding discipline of the generated
+code (`Inv`, proved to be an invariant in `Pxv/Lemmas/Errors.lean`) and on *local* well-formedness of the
+error arms (`armsWF`, a decidable predicate the check evaluates on every graph the real pavexc emits).
 -/
 namespace Pxv.Err
-open Pxv.Pipe (Mw MwKind)
+open Pxv.Pipe (Mw MwKind Stage Mid)
 
-/-- a nested blueprint starts from a snapshot of its parent's observer chain; what it registers does not
-    leak to what the parent registers afterwards. -/
-theorem nested_is_snapshot (b rest : Bp) (c : List Mw) (o p : List Nat) (k : Nat) :
-    routes (.cons (.nest b) rest) c o p k = routes b c o (p ++ [k]) 0 ++ routes rest c o p (k + 1) := by
-  simp [routes]
+/-! ## (2) one generated closure -/
+
+/-- **C06 (a) — nothing that depends on the `Ok` value runs.** For every ordered call graph, every failing set
+    and every way of running it: if the fallible node `x` inspected by the `MatchBranching` node `b` returned
+    `Err`, then no node computed (directly or transitively) from its `Ok` matcher is ever invoked. -/
+theorem ok_dependants_skipped (g : Graph) (fails : Kind → Bool) (fuel : Nat) (targets : List Nat)
+    (hop : oneParent g = true) (b x okm : Nat)
+    (hx : scrutinee g b = some x) (hf : fails (g.kind x) = true)
+    (hokm : okm ∈ g.succs b) (hk : g.kind okm = .okMatch) (n : Nat) (hpath : DataPath g okm n) :
+    ∀ e ∈ outOf g fails (exec g fails fuel targets [] {}).1, e.node ≠ n := by
+  intro e he hen
+  have hinv := exec_inv fuel targets [] {} (Inv.init g fails)
+  have hop' := OneParent.of_check hop
+  have hn := out_bound hinv e he
+  rw [hen] at hn
+  have hokb := bound_of_path hinv hop' hpath hn
+  have hch := hinv.matchers okm hokb (by rw [hk]; rfl)
+  obtain ⟨b', x', _, _, hvb', hx', hk'⟩ := hinv.chosen okm hch
+  -- `okm` hangs off `b` only
+  obtain ⟨e1, he1, hs1, hd1⟩ := mem_succs.mp hokm
+  obtain ⟨e2, he2, hs2, hd2⟩ := mem_succs.mp hvb'
+  have := hop' okm (by rw [hk]; rfl) e1 he1 e2 he2 hd1 hd2
+  rw [hs1, hs2] at this
+  subst this
+  rw [hx] at hx'
+  cases hx'
+  rw [hf, hk] at hk'
+  cases hk'
+
+/-- the same for the other side: what hangs off an `Err` matcher only runs if its arm was entered. -/
+theorem arm_entered_of_ran (g : Graph) (fails : Kind → Bool) (fuel : Nat) (targets : List Nat)
+    (hop : oneParent g = true) (m n : Nat) (hk : g.kind m = .errMatch) (hpath : DataPath g m n)
+    (e : Ev) (he : e ∈ outOf g fails (exec g fails fuel targets [] {}).1) (hen : e.node = n) :
+    m ∈ (exec g fails fuel targets [] {}).1.errs := by
+  have hinv := exec_inv fuel targets [] {} (Inv.init g fails)
+  have hn := out_bound hinv e he
+  rw [hen] at hn
+  have hmb := bound_of_path hinv (OneParent.of_check hop) hpath hn
+  exact (hinv.errs m).mpr ⟨hinv.matchers m hmb (by rw [hk]; rfl), hk⟩
+
+theorem frag_unit (g : Graph) : ∀ (fuel n : Nat), ∀ e ∈ frag g fuel n, isUnit e.kind = true
+  | 0, _, e, he => by simp [frag] at he
+  | fuel + 1, n, e, he => by
+    simp only [frag, List.mem_flatMap, List.mem_append, List.mem_singleton] at he
+    obtain ⟨p, hp, he⟩ := he
+    rcases he with he | rfl
+    · exact frag_unit g fuel p e he
+    · exact (List.mem_filter.mp hp).2
+
+theorem frag_eq_chain {g : Graph} (hs : ∀ n, (unitBefores g n).length ≤ 1) :
+    ∀ (fuel n : Nat), frag g fuel n = (chainOf g fuel n).map (fun p => Ev.call p (g.kind p))
+  | 0, _ => rfl
+  | fuel + 1, n => by
+    simp only [frag, chainOf]
+    match hub : unitBefores g n, hs n with
+    | [], _ => simp
+    | [p], _ => simp [frag_eq_chain hs fuel p]
+    | _ :: _ :: _, h => simp at h
+
+theorem isEh_not_unit {k : Kind} (h : isEh k = true) : isUnit k = false := by
+  cases k <;> simp_all [isEh, isUnit]
+
+theorem isEh_not_structural {k : Kind} (h : isEh k = true) : isStructural k = false := by
+  cases k <;> simp_all [isEh, isStructural]
+
+theorem isEh_not_canFail {k : Kind} (h : isEh k = true) : canFail k = false := by
+  cases k <;> simp_all [isEh, canFail]
+
+theorem ehMatchers_path {g : Graph} {m h : Nat} (hm : m ∈ ehMatchers g h) : DataPath g m h := by
+  simp only [ehMatchers, List.mem_append, List.mem_filter, List.mem_flatMap] at hm
+  rcases hm with ⟨hm, _⟩ | ⟨e, ⟨he, _⟩, hm, _⟩
+  · exact .single hm
+  · exact .tail (.single hm) he
+
+/-- the error handler events of a run, read off the nodes that ran -/
+theorem filter_eh_out (g : Graph) (fails : Kind → Bool) (ran : List Nat) :
+    (ran.flatMap (emit g fails)).filter (fun e => isEh e.kind) =
+      (ran.filter (fun n => isEh (g.kind n))).map (fun n => Ev.call n (g.kind n)) := by
+  induction ran with
+  | nil => rfl
+  | cons n rest ih =>
+    simp only [List.flatMap_cons, List.filter_append, ih, emit]
+    have hfrag : (frag g g.size n).filter (fun e => isEh e.kind) = [] := by
+      apply List.filter_eq_nil_iff.mpr
+      intro e he
+      have := frag_unit g g.size n e he
+      cases hk : e.kind <;> simp_all [isUnit, isEh]
+    rw [hfrag]
+    by_cases hn : isEh (g.kind n) = true
+    · simp [evAt, hn, isEh_not_canFail hn, Ev.kind]
+    · have hn' : isEh (g.kind n) = false := by simpa using hn
+      simp only [List.nil_append, List.filter_cons, hn', Bool.false_eq_true, ↓reduceIte]
+      unfold evAt
+      split <;> simp [Ev.kind, hn']
+
+theorem filter_all_eq {l : List Nat} {h : Nat} {q : Nat → Bool} (hnd : l.Nodup) (hmem : h ∈ l) (hq : q h = true)
+    (hall : ∀ n ∈ l, q n = true → n = h) : l.filter q = [h] := by
+  induction l with
+  | nil => cases hmem
+  | cons a l ih =>
+    have hnd' := List.nodup_cons.mp hnd
+    rcases List.mem_cons.mp hmem with rfl | hmem
+    · simp only [List.filter_cons, hq, ↓reduceIte, List.cons.injEq, true_and]
+      apply List.filter_eq_nil_iff.mpr
+      intro n hn hqn
+      have := hall n (List.mem_cons_of_mem _ hn) hqn
+      subst this
+      exact hnd'.1 hn
+    · have ha : q a = false := by
+        cases hqa : q a with
+        | false => rfl
+        | true =>
+          have := hall a List.mem_cons_self hqa
+          subst this
+          exact absurd hmem hnd'.1
+      simp only [List.filter_cons, ha, Bool.false_eq_true, ↓reduceIte]
+      exact ih hnd'.2 hmem (fun n hn => hall n (List.mem_cons_of_mem _ hn))
+
+/-- **C06 (b) — the designated error handler runs exactly once, and no other.** In a well-formed graph, if
+    the closure returned through the `Err` arm of the matcher `m` (the only arm of that kind entered, and the
+    last arm entered), then among everything that ran there is exactly one invocation of an error handler:
+    the handler `h` that hangs off `m`. -/
+theorem handler_once (g : Graph) (fails : Kind → Bool) (fuel : Nat) (targets : List Nat)
+    (hwf : armsWF g = true) (st : St) (r m h : Nat) (rest : List Nat)
+    (hexec : exec g fails fuel targets [] {} = (st, some r))
+    (herrs : st.errs = [m]) (hlast : st.chosen = m :: rest)
+    (hh : isEh (g.kind h) = true) (hm : m ∈ ehMatchers g h) :
+    (outOf g fails st).filter (fun e => isEh e.kind) = [Ev.call h (g.kind h)] := by
+  have wf := ArmsWF.of_check hwf
+  have hinv : Inv g fails st := by
+    have := exec_inv fuel targets [] {} (Inv.init g fails); rw [hexec] at this; exact this
+  have hnd : st.ran.Nodup := by
+    have := exec_ran_nodup (g := g) (fails := fails) fuel targets [] {} (by simp) (by simp)
+    rw [hexec] at this; exact this
+  obtain ⟨hrb, hret⟩ := exec_ret fuel targets [] {} st r hexec
+  have hk := mem_ehMatchers_kind hm
+  -- the returned terminal lies below `m`, hence is computed from `h`
+  have hrs : r ∈ g.sinksOf m := by
+    rcases hret with ⟨hc, _⟩ | ⟨v, rest', hc, hr⟩
+    · rw [hlast] at hc; cases hc
+    · rw [hlast] at hc; cases hc; exact hr
+  have hhb : h ∈ st.bound := bound_of_path hinv wf.oneParent (wf.sinks m h hk hh hm r hrs) hrb
+  have hhr : h ∈ st.ran := hinv.boundRan h hhb (isEh_not_structural hh) (isEh_not_unit hh)
+  unfold outOf
+  rw [filter_eh_out]
+  rw [filter_all_eq hnd hhr hh]
+  · rfl
+  · intro n hn hne
+    obtain ⟨m', hm'⟩ := wf.ehMatcher n hne
+    have hm'mem : m' ∈ ehMatchers g n := by rw [hm']; exact List.mem_singleton.mpr rfl
+    have hnb := (hinv.ran n hn).1
+    have hm'b := bound_of_path hinv wf.oneParent (ehMatchers_path hm'mem) hnb
+    have hk' := mem_ehMatchers_kind hm'mem
+    have : m' ∈ st.errs := (hinv.errs m').mpr ⟨hinv.matchers m' hm'b (by rw [hk']; rfl), hk'⟩
+    rw [herrs] at this
+    have : m' = m := by simpa using this
+    subst this
+    exact wf.oneHandler m' n h hne hh hm'mem hm
+
+theorem dataPath_head {g : Graph} {a n : Nat} (h : DataPath g a n) :
+    a = n ∨ ∃ c, a ∈ g.dataPreds c ∧ DataPath g c n := by
+  induction h with
+  | refl => exact Or.inl rfl
+  | tail hp hmem ih =>
+    rename_i p n'
+    rcases ih with rfl | ⟨c, hc, hcp⟩
+    · exact Or.inr ⟨n', hmem, .refl⟩
+    · exact Or.inr ⟨c, hc, .tail hcp hmem⟩
+
+theorem sinksOf_no_succs {g : Graph} {a t : Nat} (h : t ∈ g.sinksOf a) : g.succs t = [] := by
+  have := (List.mem_filter.mp h).2
+  simpa using this
+
+/-- the calls of components without output, read off the nodes that ran -/
+theorem filter_unit_out (g : Graph) (fails : Kind → Bool) (ran : List Nat)
+    (hran : ∀ n ∈ ran, isUnit (g.kind n) = false) :
+    (ran.flatMap (emit g fails)).filter (fun e => isUnit e.kind) = ran.flatMap (frag g g.size) := by
+  induction ran with
+  | nil => rfl
+  | cons n rest ih =>
+    simp only [List.flatMap_cons, List.filter_append, emit]
+    rw [ih (fun k hk => hran k (List.mem_cons_of_mem _ hk))]
+    have hfrag : (frag g g.size n).filter (fun e => isUnit e.kind) = frag g g.size n := by
+      apply List.filter_eq_self.mpr
+      intro e he
+      exact frag_unit g g.size n e he
+    have hn := hran n List.mem_cons_self
+    rw [hfrag]
+    have : List.filter (fun e => isUnit e.kind) [evAt g fails n] = [] := by
+      unfold evAt
+      split <;> simp [Ev.kind, hn]
+    rw [this]; simp
+
+/-- **C06 (c) — every observer runs exactly once, in order, after the error handler and right before the
+    handler's response is turned into the closure's return value.** In a well-formed graph, if the closure
+    returned through the `Err` arm of `m`, whose handler is `h` and whose handler's only consumer is `ir`
+    (its `IntoResponse`), then
+    * the invocations of output-less components (the observers) during the whole run are exactly the chain
+      that happens before `ir`, in chain order, once each;
+    * they sit between the handler's invocation and `ir`: the run is `A ++ observers ++ [ir] ++ B` with the
+      handler's call in `A`. -/
+theorem observers_once_in_order (g : Graph) (fails : Kind → Bool) (fuel : Nat) (targets : List Nat)
+    (hwf : armsWF g = true) (st : St) (r m h ir : Nat) (rest : List Nat)
+    (hexec : exec g fails fuel targets [] {} = (st, some r))
+    (herrs : st.errs = [m]) (hlast : st.chosen = m :: rest)
+    (hh : isEh (g.kind h) = true) (hm : m ∈ ehMatchers g h)
+    (hir : g.dataPreds ir = [h]) (honly : ∀ c, h ∈ g.dataPreds c → c = ir)
+    (hirk : isUnit (g.kind ir) = false ∧ isStructural (g.kind ir) = false) :
+    let observers := (chainOf g g.size ir).map (fun p => Ev.call p (g.kind p))
+    (outOf g fails st).filter (fun e => isUnit e.kind) = observers ∧
+    ∃ A B, outOf g fails st = A ++ observers ++ [evAt g fails ir] ++ B ∧
+      Ev.call h (g.kind h) ∈ A := by
+  intro observers
+  have wf := ArmsWF.of_check hwf
+  have hinv : Inv g fails st := by
+    have := exec_inv fuel targets [] {} (Inv.init g fails); rw [hexec] at this; exact this
+  have hnd : st.ran.Nodup := by
+    have := exec_ran_nodup (g := g) (fails := fails) fuel targets [] {} (by simp) (by simp)
+    rw [hexec] at this; exact this
+  obtain ⟨hrb, hret⟩ := exec_ret fuel targets [] {} st r hexec
+  have hk := mem_ehMatchers_kind hm
+  have hrs : r ∈ g.sinksOf m := by
+    rcases hret with ⟨hc, _⟩ | ⟨v, rest', hc, hr⟩
+    · rw [hlast] at hc; cases hc
+    · rw [hlast] at hc; cases hc; exact hr
+  have hpath := wf.sinks m h hk hh hm r hrs
+  -- `ir` ran: the returned terminal is computed from `h` through its only consumer
+  have hirb : ir ∈ st.bound := by
+    rcases dataPath_head hpath with rfl | ⟨c, hc, hcr⟩
+    · -- `h` itself cannot be a terminal: `ir` consumes it
+      have hs := sinksOf_no_succs hrs
+      have : h ∈ g.dataPreds ir := by rw [hir]; exact List.mem_singleton.mpr rfl
+      obtain ⟨e, he, hes, hed, _⟩ := mem_dataPreds.mp this
+      have : ir ∈ g.succs h := mem_succs.mpr ⟨e, he, hes, hed⟩
+      rw [hs] at this; cases this
+    · have := honly c hc
+      subst this
+      exact bound_of_path hinv wf.oneParent hcr hrb
+  have hirr : ir ∈ st.ran := hinv.boundRan ir hirb hirk.2 hirk.1
+  have hranu : ∀ n ∈ st.ran, isUnit (g.kind n) = false := fun n hn => (hinv.ran n hn).2.2
+  -- calls are inlined in front of `ir` only
+  have hfrag : ∀ n ∈ st.ran, n ≠ ir → frag g g.size n = [] := by
+    intro n hn hne
+    have hub : unitBefores g n = [] := by
+      cases hub : unitBefores g n with
+      | nil => rfl
+      | cons p ps =>
+        exfalso
+        obtain ⟨h', hd', hh', _⟩ := wf.inlined n (hranu n hn) (by rw [hub]; simp)
+        obtain ⟨m', hm'⟩ := wf.ehMatcher h' hh'
+        have hm'mem : m' ∈ ehMatchers g h' := by rw [hm']; exact List.mem_singleton.mpr rfl
+        have hnb := (hinv.ran n hn).1
+        have hh'b : h' ∈ st.bound :=
+          bound_closed hinv wf.oneParent hnb (by rw [hd']; exact List.mem_singleton.mpr rfl)
+        have hm'b := bound_of_path hinv wf.oneParent (ehMatchers_path hm'mem) hh'b
+        have hk' := mem_ehMatchers_kind hm'mem
+        have : m' ∈ st.errs := (hinv.errs m').mpr ⟨hinv.matchers m' hm'b (by rw [hk']; rfl), hk'⟩
+        rw [herrs] at this
+        have : m' = m := by simpa using this
+        subst this
+        have := wf.oneHandler m' h' h hh' hh hm'mem hm
+        subst this
+        exact hne (honly n (by rw [hd']; exact List.mem_singleton.mpr rfl))
+    cases hsz : g.size with
+    | zero => rfl
+    | succ k => simp [frag, hub]
+  obtain ⟨r1, r2, hsplit⟩ := List.append_of_mem hirr
+  have hr1 : ∀ n ∈ r1, n ≠ ir := by
+    intro n hn hne
+    subst hne
+    rw [hsplit] at hnd
+    have := (List.nodup_append.mp hnd).2.2 n hn n List.mem_cons_self
+    exact this rfl
+  have hr2 : ∀ n ∈ r2, n ≠ ir := by
+    intro n hn hne
+    subst hne
+    rw [hsplit] at hnd
+    have := (List.nodup_cons.mp (List.nodup_append.mp hnd).2.1).1
+    exact this hn
+  have hfragir : frag g g.size ir = observers := frag_eq_chain wf.single g.size ir
+  constructor
+  · unfold outOf
+    rw [filter_unit_out g fails st.ran hranu, hsplit]
+    simp only [List.flatMap_append, List.flatMap_cons]
+    have h1 : r1.flatMap (frag g g.size) = [] := by
+      apply List.flatMap_eq_nil_iff.mpr
+      intro n hn
+      exact hfrag n (by rw [hsplit]; exact List.mem_append_left _ hn) (hr1 n hn)
+    have h2 : r2.flatMap (frag g g.size) = [] := by
+      apply List.flatMap_eq_nil_iff.mpr
+      intro n hn
+      exact hfrag n (by rw [hsplit]; exact List.mem_append_right _ (List.mem_cons_of_mem _ hn)) (hr2 n hn)
+    rw [h1, h2, hfragir]; simp
+  · refine ⟨r1.flatMap (emit g fails), r2.flatMap (emit g fails), ?_, ?_⟩
+    · unfold outOf
+      rw [hsplit]
+      simp only [List.flatMap_append, List.flatMap_cons, emit, hfragir]
+      simp [List.append_assoc]
+    · have hh1 : h ∈ r1 := hinv.order r1 ir r2 hsplit h (by rw [hir]; exact List.mem_singleton.mpr rfl)
+        (isEh_not_structural hh) (isEh_not_unit hh)
+      apply List.mem_flatMap.mpr
+      refine ⟨h, hh1, ?_⟩
+      simp [emit, evAt, isEh_not_canFail hh]
+
+/-! ### non-vacuity: a handler that takes `&T0` and returns `Result`, with a specific error handler and
+two observers; the constructor of `T0` is fallible too (fallback handler).
+
+positions: 0 `c0` · 1 `match` · 2 Err(c0) · 3 `Error::new` · 4 default handler · 5 o0 · 6 o1 · 7 into_response ·
+8 Ok(c0) · 9 `h0` · 10 `match` · 11 Err(h0) · 12 x3 · 13 `Error::new` · 14 o0 · 15 o1 · 16 into_response ·
+17 Ok(h0) · 18 into_response -/
+def demo : Graph :=
+  ⟨[.ctor 0, .branch, .errMatch, .errorNew, .ehDefault, .observer 0, .observer 1, .intoResponse,
+    .okMatch, .handler 0, .branch, .errMatch, .eh 3, .errorNew, .observer 0, .observer 1, .intoResponse,
+    .okMatch, .intoResponse],
+   [⟨0, 1, .move⟩, ⟨1, 2, .move⟩, ⟨1, 8, .move⟩, ⟨2, 3, .move⟩, ⟨3, 4, .shared⟩, ⟨3, 5, .shared⟩, ⟨3, 6, .shared⟩,
+    ⟨5, 6, .before⟩, ⟨6, 7, .before⟩, ⟨4, 7, .move⟩, ⟨8, 9, .shared⟩, ⟨9, 10, .move⟩, ⟨10, 11, .move⟩,
+    ⟨10, 17, .move⟩, ⟨11, 12, .shared⟩, ⟨11, 13, .move⟩, ⟨13, 14, .shared⟩, ⟨13, 15, .shared⟩, ⟨14, 15, .before⟩,
+    ⟨15, 16, .before⟩, ⟨12, 16, .move⟩, ⟨17, 18, .move⟩]⟩
+
+example : armsWF demo = true := by decide
+example : armShape demo 10 (.eh 3) [0, 1] = true ∧ armShape demo 1 .ehDefault [0, 1] = true := by decide
+-- nothing fails: the constructor, then the handler
+example : outOf demo (fun _ => false) (runGraph demo (fun _ => false)).1 =
+    [.call 0 (.ctor 0), .call 9 (.handler 0), .call 18 .intoResponse] := by decide
+-- the handler fails: its own error handler, then the two observers, in order, then the response
+example : let fails := fun k => k == Kind.handler 0
+    outOf demo fails (runGraph demo fails).1 =
+      [.call 0 (.ctor 0), .fail 9 (.handler 0), .call 12 (.eh 3), .call 13 .errorNew,
+       .call 14 (.observer 0), .call 15 (.observer 1), .call 16 .intoResponse] ∧
+    (runGraph demo fails).1.errs = [11] ∧ (runGraph demo fails).1.chosen = [11, 8] := by decide
+-- the constructor fails (and the handler would): only the first failure matters, the handler never runs
+example : let fails := fun k => k == Kind.handler 0 || k == Kind.ctor 0
+    outOf demo fails (runGraph demo fails).1 =
+      [.fail 0 (.ctor 0), .call 3 .errorNew, .call 4 .ehDefault, .call 5 (.observer 0), .call 6 (.observer 1),
+       .call 7 .intoResponse] ∧ (runGraph demo fails).1.errs = [2] := by decide
+-- the hypotheses of `ok_dependants_skipped` / `handler_once` / `observers_once_in_order` are satisfiable
+example : scrutinee demo 1 = some 0 ∧ 8 ∈ demo.succs 1 ∧ demo.kind 8 = .okMatch ∧
+    DataPath demo 8 9 ∧ 11 ∈ ehMatchers demo 12 ∧ demo.dataPreds 16 = [12] :=
+  ⟨by decide, by decide, by decide, .single (by decide), by decide, by decide⟩
 
 end Pxv.Err
